@@ -79,6 +79,9 @@ def gen_func(rng, with_spaces):
     return ("builtin.module {\n  func.func public @f(%a : " + base + ", %b : " + base + ", %c : " + base + ", %n : index) {\n" + "\n".join(lines) + "\n  }\n}\n")
 
 
+DYNI = -9223372036854775808
+
+
 def dense_ints(attr):
     from xdsl.dialects.builtin import DenseIntOrFPElementsAttr
     assert isinstance(attr, DenseIntOrFPElementsAttr)
@@ -228,6 +231,99 @@ def run(pid: str, tier: str, seed: int, selftest=False, replay=None) -> int:
             from xdsl.parser import Parser
             L = export_tsl(Parser(repo.opt_main().ctx, f"#tsl.tsl<{lay}>").parse_attribute().data)
             rcases.append({"kind": "relayout", "name": name, "shape": list(shape), "L": L, "old": list(range(nel)), "new": new, "text": text})
+    # ---- subview of a global: the global is re-laid-out so that the subview has the requested layout
+    from xdsl.parser import Parser as _P
+    n_sub = 40 if quick else 400
+    for k in range(n_sub):
+        shape, lay = dense_layouts[rng.randrange(len(dense_layouts))]
+        mults = [rng.choice([1, 2, 2, 3]) for _ in shape]
+        while (shape[0] * mults[0]) * (shape[1] * mults[1]) > 120:
+            mults[rng.randrange(2)] = 1
+        gshape = [shape[d] * mults[d] for d in range(2)]
+        nel = gshape[0] * gshape[1]
+        rows = ", ".join("[" + ", ".join(str(r * gshape[1] + c) for c in range(gshape[1])) + "]" for r in range(gshape[0]))
+        gs, ss = f"{gshape[0]}x{gshape[1]}", f"{shape[0]}x{shape[1]}"
+        dyn = [mults[d] > 1 and rng.random() < 0.7 for d in range(2)]
+        stat = [DYNI if dyn[d] else shape[d] * rng.randrange(mults[d]) for d in range(2)]
+        dargs = [f"%o{d}" for d in range(2) if dyn[d]]
+        subt = f"memref<{ss}xi8, strided<[{gshape[1]}, 1], offset: ?>>"
+        text = f"""builtin.module {{
+  "memref.global"() <{{sym_name = "g", type = memref<{gs}xi8>, initial_value = dense<[{rows}]> : tensor<{gs}xi8>, sym_visibility = "private", constant}}> : () -> ()
+  func.func public @f({', '.join(a + ' : index' for a in dargs)}) {{
+    %g = memref.get_global @g : memref<{gs}xi8>
+    %sv = "memref.subview"(%g{''.join(', ' + a for a in dargs)}) <{{operandSegmentSizes = array<i32: 1, {len(dargs)}, 0, 0>, static_offsets = array<i64: {stat[0]}, {stat[1]}>, static_sizes = array<i64: {shape[0]}, {shape[1]}>, static_strides = array<i64: 1, 1>}}> : (memref<{gs}xi8>{', index' * len(dargs)}) -> {subt}
+    %k = "snax.layout_cast"(%sv) : ({subt}) -> memref<{ss}xi8, #tsl.tsl<{lay}>>
+    "test.op"(%k) : (memref<{ss}xi8, #tsl.tsl<{lay}>>) -> ()
+    func.return
+  }}
+}}
+"""
+        name = f"relayout:subview-global:{gs}:{ss}:{lay}:{stat}"
+        try:
+            m = repo.parse(text)
+            m.verify()
+        except Exception as e:
+            raise MachineryError(f"subview-global input invalid: {e}\n{text}")
+        try:
+            repo.run_pipeline(m, "realize-memref-casts")
+        except Exception as e:
+            rep.violation(name, f"realize-memref-casts raised {type(e).__name__}: {str(e)[:160]}", {"source": text})
+            continue
+        newg = [o for o in m.walk() if isinstance(o, memref.GlobalOp)]
+        sv = [o for o in m.walk() if isinstance(o, memref.SubviewOp)]
+        if len(newg) != 1 or "tsl" not in str(newg[0].type) or len(sv) != 1:
+            rep.refused += 1      # not transformed at compile time: a copy is materialised instead (program part)
+            continue
+        svl = sv[0].result.type.layout
+        if "tsl" not in str(svl):
+            rep.refused += 1
+            continue
+        if any(o.name == "memref.copy" for o in m.walk()):
+            rep.violation(name, "the global was re-laid-out and a copy is materialised as well", {"source": text, "after": str(m)[:3000]})
+            continue
+        offs = [[a, b] for a in ([shape[0] * i for i in range(mults[0])] if dyn[0] else [stat[0]])
+                for b in ([shape[1] * i for i in range(mults[1])] if dyn[1] else [stat[1]])]
+        rcases.append({"kind": "relayout", "name": name, "shape": gshape, "L": export_tsl(newg[0].type.layout.data), "old": list(range(nel)),
+                       "new": dense_ints(newg[0].initial_value), "text": text,
+                       "sub": {"L": export_tsl(svl.data), "sizes": list(shape), "offs": offs}})
+        if str(svl.data) != str(_P(repo.opt_main().ctx, f"#tsl.tsl<{lay}>").parse_attribute().data):
+            rep.violation(name, f"the subview's layout {svl.data} is not the requested layout {lay}", {"source": text, "after": str(m)[:3000]})
+    # ---- transposed constants folded at compile time (RemoveTransposeConstants)
+    from xdsl.pattern_rewriter import PatternRewriteWalker
+    from snaxc.transforms.frontend.remove_transpose_constants import RemoveTransposeConstants
+    for (s0, s1) in ([(2, 3), (3, 2), (1, 4), (4, 1), (4, 4), (2, 8), (5, 3)] if quick else [(a, b) for a in range(1, 7) for b in range(1, 7)]):
+        rows = ", ".join("[" + ", ".join(str(r * s1 + c) for c in range(s1)) + "]" for r in range(s0))
+        text = f"""builtin.module {{
+  func.func public @f() -> tensor<{s1}x{s0}xi8> {{
+    %cst = arith.constant dense<[{rows}]> : tensor<{s0}x{s1}xi8>
+    %e = tensor.empty() : tensor<{s1}x{s0}xi8>
+    %t = linalg.generic {{indexing_maps = [affine_map<(d0, d1) -> (d1, d0)>, affine_map<(d0, d1) -> (d0, d1)>], iterator_types = ["parallel", "parallel"]}} ins(%cst : tensor<{s0}x{s1}xi8>) outs(%e : tensor<{s1}x{s0}xi8>) {{
+    ^bb0(%x : i8, %y : i8):
+      linalg.yield %x : i8
+    }} -> tensor<{s1}x{s0}xi8>
+    func.return %t : tensor<{s1}x{s0}xi8>
+  }}
+}}
+"""
+        name = f"relayout:transpose-constant:{s0}x{s1}"
+        try:
+            m = repo.parse(text)
+            m.verify()
+        except Exception as e:
+            raise MachineryError(f"transpose input invalid: {e}\n{text}")
+        try:
+            PatternRewriteWalker(RemoveTransposeConstants(), apply_recursively=False).rewrite_module(m)
+        except Exception as e:
+            rep.violation(name, f"RemoveTransposeConstants raised {type(e).__name__}: {str(e)[:160]}", {"source": text})
+            continue
+        consts = [o for o in m.walk() if isinstance(o, arith.ConstantOp) and hasattr(o.value, "data") and hasattr(o.value.data, "data")]
+        if any(o.name == "linalg.generic" for o in m.walk()) or len(consts) != 1:
+            rep.refused += 1
+            continue
+        # logical element (a, b) of the s0 x s1 constant must be element (b, a) of the row-major s1 x s0 result: address b * s0 + a
+        L = {"dims": [[{"b": s0, "s": 1}], [{"b": s1, "s": s0}]], "off": 0}
+        rcases.append({"kind": "relayout", "name": name, "shape": [s0, s1], "L": L, "old": list(range(s0 * s1)), "new": dense_ints(consts[0].value),
+                       "text": text})
     if rcases:
         r, verdicts = run_obj_batch(pid, rcases, tag="relayout")
         rep.add_tlc(r)
